@@ -127,6 +127,9 @@ def sites(tree):
                             isinstance(st, ast.Assign) and isinstance(
                                 st.targets[0], (ast.Attribute,
                                                 ast.Subscript))):
+                        add(fq, st, 'guard stmt ' +
+                            ast.unparse(st)[:40].replace('\n', ' '),
+                            ('guard', fld, id(parent), i))
                         if len(body) == 1:
                             add(fq, st, 'delete stmt ' +
                                 ast.unparse(st)[:40].replace('\n', ' '),
@@ -156,7 +159,15 @@ def mutate(src, k):
         for parent in ast.walk(tree):
             if id(parent) == pid:
                 body = getattr(parent, fld)
-                if how == 'delete':
+                if how == 'guard':
+                    # the statement runs only under a condition that is
+                    # false by default: at run time this is a deletion, in
+                    # the syntax tree the statement is still there
+                    body[i] = ast.If(
+                        test=ast.parse("globals().get('_LAZY_UPDATE')",
+                                       mode='eval').body,
+                        body=[body[i]], orelse=[])
+                elif how == 'delete':
                     del body[i]
                 else:
                     body[i] = ast.Pass()
@@ -294,6 +305,8 @@ def main():
     ap.add_argument('--repo', default='/repo')
     ap.add_argument('--jobs', type=int, default=14)
     ap.add_argument('--tests', nargs='*')
+    ap.add_argument('--only', help='only mutants whose description starts '
+                                   'with this text (e.g. "guard stmt")')
     a = ap.parse_args()
     files = a.files
     anchors = {}
@@ -327,6 +340,8 @@ def main():
             if fq.split('.')[-1] in ('view', '_plot', '__str__', '__repr__',
                                      'info', 'draw', 'draw3D') or \
                     '_plot' in fq or 'view' in fq.split('.')[-1]:
+                continue
+            if a.only and not desc.startswith(a.only):
                 continue
             jobs.append((props_for(rel), rel, k, fq, line, desc))
     if a.max and len(jobs) > a.max:
